@@ -20,7 +20,7 @@ CHECKS = {
                 text='Restart (graceful shutdown, or flush of every partition followed by an abrupt end) is an action of the script alphabet; the full sweep after the restart and the append that follows must equal the specification state, which a restart leaves unchanged. Disagreements that appear with a restart are attributed to C03. A second lens (crash lens, family graceful) ends workloads under {wait, no-wait} x {fsync} x {save threshold, segment size} with a graceful shutdown (System::shutdown, then the process ends) and recovers the directory it leaves: everything that was accepted must be there.',
                 ref='3.1, 7/C03'),
     'C07': dict(engine='loglens', technique='TLA+ spec IggyLog (stored offsets per kind/id/partition) + TLC model checking of the offsets instance + trace validation',
-                text='Two lenses. Log lens: identities consumer 1, consumer 2 / named consumer, group 1 by id and by name on two partitions (and a group life-cycle family: store, delete group, re-create). Group lens: members committing with and without naming the partition. In both, after every step the stored offset and next-poll of every identity on every partition is read and compared with the specification (StoredIsolated is also model-checked as an action property).',
+                text='Two lenses. Log lens: identities consumer 1, consumer 2 / named consumer, group 1 by id and by name on two partitions (and a group life-cycle family: store, delete group, re-create). Group lens: members committing with and without naming the partition. In both, after every step the stored offset and next-poll of every identity on every partition is read and compared with the specification (StoredIsolated is also model-checked as an action property). A small family with a complete path cover exercises auto-commit of polls BY OFFSET, forwards and backwards (the stored offset becomes the last offset the poll returned).',
                 ref='3.1, 7/C07'),
     'C14': dict(engine='loglens', technique='TLA+ spec IggyLog (RemovedOK/Expired/LoAfter) + TLC model checking of the retention instance + trace validation with a controlled clock',
                 text='Clock ticks (hook H1), expiry updates, real maintenance passes (MaintainMessagesExecutor) and restarts; every segment that disappears must be closed and expired in specification time, the current offset must not move, appends continue at the next offset and reads below the earliest retained offset start at it.',
@@ -38,7 +38,7 @@ CHECKS = {
                 text='Sends at, below and above the limit with deletion of oldest segments on and off, limit updates (also below one segment) and real maintenance passes; each send outcome is compared with the gate evaluated on the size the server reports, each disappearing segment with the clean-up rule. In limited topics a reported partition / topic size that is not the stored size is a C15 violation as well (the limit is enforced on that figure).',
                 ref='3.3, 7/C15'),
     'C16': dict(engine='topiclens', technique='TLA+ spec IggyTopic (retained counts per partition, sums) + TLC trace validation of the counter hierarchy against polls, projection and bytes on disk',
-                text='After every step partition/topic/stream/stats counts and sizes are compared: partition count = retained messages of the specification, topic = sum of partitions, stream = sum of topics (a sibling topic and stream receive data too), stats = sum of streams and exact entity/segment counts (against the internal projection), sizes = bytes on disk at quiescent points; also across purge, partition deletion, maintenance and restart.',
+                text='After every step partition/topic/stream/stats counts and sizes are compared: partition count = retained messages of the specification, topic = sum of partitions, stream = sum of topics (a sibling topic and stream receive data too), stats = sum of streams and exact entity/segment counts (against the internal projection), sizes = bytes on disk at quiescent points; also across purge, partition deletion, maintenance and restart. The catalogue lens adds: the server statistics (stream, topic, partition, segment, group and message counts) equal the specification\'s relations after every catalogue command - refused ones included -, and every partition / topic reports the size of its log files for messages sent over TCP, HTTP and QUIC.',
                 ref='3.3, 7/C16'),
     'C17': dict(engine='topiclens', technique='TLA+ spec IggyTopic (MayLand relation, keyMap, rotation window) + TLC model checking + trace validation',
                 text='Sends by partition id (valid and invalid), by key (seeded lengths 1..255) and balanced, interleaved with partition additions/removals and restarts; the landing partition is read off the full read of every partition and judged relationally: named partition or refusal, fixed partition per key and partition count, P consecutive balanced sends on P distinct partitions, exactly one partition per send. A family of balanced-only histories (every history of 4, thorough 6, sends / partition additions / removals of 1, 2 or all partitions from 3 partitions) checks the rotation across shrinking and growing topics; a valid send that is refused for another reason than a full topic is a violation.',
@@ -50,13 +50,13 @@ CHECKS = {
                 text='(1) Every rule of the real Permissioner evaluated (inside catch_unwind) on a structured set of permission records; TLC checks per line: allow implies Granted (no escalation, scoping: parts for another stream/topic are invisible to Granted), no panic, root allowed everywhere, and that one-step-larger records never revoke. (2) Every SDK call on connections that never authenticated / logged out, over TCP (client-side state forced so the request reaches the server) and HTTP: refused except ping and the declared public HTTP paths, state unchanged. (3) A real user given records through update_permissions on an already open connection performs every operation; performed implies Granted for the part of the record that applies to the operation\'s target; permissions stripped and user deleted on the open connection; root cannot be deleted or stripped. The operation list includes get_snapshot (granted like the other server-information operations).',
                 ref='3.7, 7/C09'),
     'C10': dict(engine='authlens', technique='TLA+ spec IggyAuth (PasswordValid/TokenValid) + TLC model checking + TLC-generated histories + trace validation with an all-candidate login sweep over TCP and HTTP, session probes and a raw-secret file scan',
-                text='Histories over user creation, status and password changes, token creation/expiry/deletion, logins, logouts, clock ticks, the token cleaner and restarts; after every step a login is attempted with every (user, password) pair and every token ever issued over TCP and HTTP and must succeed iff the specification says the credential is valid now; connections are probed (logout de-authenticates) and every file under the data directory is scanned for every raw password/token.',
+                text='Histories over user creation, status and password changes, token creation/expiry/deletion, logins, logouts, clock ticks, the token cleaner and restarts; after every step a login is attempted with every (user, password) pair and every token ever issued over TCP and HTTP and must succeed iff the specification says the credential is valid now; connections are probed (logout de-authenticates) and every file under the data directory is scanned for every raw password/token. In every second scenario root\'s user administration (create, change password, status, delete) goes over HTTP (those handlers journal on their own); fixed scripts let time pass before a restart so that a token\'s expiry moment must survive it.',
                 ref='3.7, 7/C10'),
     'C11': dict(engine='jrnlens', technique='TLA+ spec IggyJournal (appliers, loader predicate, tamper operators; Serialized design model-checked, original design refuted as negative control) + TLC-judged forced schedules / injected failures on the real FileState and an exhaustive byte-level tamper sweep on real journal files',
                 text='Design: TLC checks AlwaysLoadable for 3 appliers and 2 failed appends and TamperEvident for journals of 1-5 entries. Code: every order of 2-3 concurrent FileState::apply calls is forced through the guarded schedule point, with every set of failing appends (guarded fault switch); the real loader must then load consecutive indices containing every acknowledged command, also after one more command. Tamper: every byte x {bit flips, 0x00, 0xFF}, every truncation, every entry removal/duplication/swap of real plain and encrypted journals; the loader must answer an error, or a prefix only when a whole suffix was lost; never a different history, never a panic.',
                 ref='3.6, 7/C11'),
     'C13': dict(engine='wirelens', technique='TLA+ spec IggyWire (garbage-frame isolation) + TLC-validated SDK-encode/server-decode round trips of every command type with structure-aware boundary values, garbage frames on raw sockets, and the catalogue lens end to end over TCP and HTTP/JSON',
-                text='Agreement is decided where a specification can decide it: (1) every request type the SDK builds, with seeded boundary values, is decoded by the server\'s own decoder to an equal request with the same validity (TLC judges each recorded round trip); (2) malformed frames on one raw connection while a second connection works: error or closed, state and the other connection untouched; (3) responses and HTTP/JSON: every catalogue scenario (names of 1..255 bytes, by id / by name) over both transports must make the SDK-decoded answers equal the specification relations. Fidelity over ALL values is sampled, not exhaustive. (4) Poll responses: messages with payloads of 1..4096 bytes (boundary lengths), with and without headers of every kind, explicit and server-assigned ids, sent over TCP, HTTP and QUIC and polled back over all three in every window (offset, 1..3) and as a whole, compared with what was sent; the catalogue scenarios run over TCP, HTTP/JSON and QUIC. Round-trip instances include an empty message inside a non-empty batch (validity must agree).',
+                text='Agreement is decided where a specification can decide it: (1) every request type the SDK builds, with seeded boundary values, is decoded by the server\'s own decoder to an equal request with the same validity (TLC judges each recorded round trip); (2) malformed frames on one raw connection while a second connection works: error or closed, state and the other connection untouched; (3) responses and HTTP/JSON: every catalogue scenario (names of 1..255 bytes, by id / by name) over both transports must make the SDK-decoded answers equal the specification relations. Fidelity over ALL values is sampled, not exhaustive. (4) Poll responses: messages with payloads of 1..4096 bytes (boundary lengths), with and without headers of every kind, explicit and server-assigned ids, sent over TCP, HTTP and QUIC and polled back over all three in every window (offset, 1..3) and as a whole, compared with what was sent; the catalogue scenarios run over TCP, HTTP/JSON and QUIC. Round-trip instances include an empty message inside a non-empty batch (validity must agree). The group details (every member with its partitions, also members owning none) as decoded by the SDK are judged by the group lens.',
                 ref='3.8, 7/C13'),
     'C19': dict(engine='loglens', technique='the data-path and catalogue specifications (IggyLog, IggyCatalogue) with the encryption bit on + TLC trace validation + plaintext scan of every file as an observed variable + restart with a different key',
                 text='Same scenarios as C01-C03/C05 with encryption on: every sweep must still equal the specification (lossless), no payload marker / journalled name may be found in clear in any file after any step, the journal must be replayable after restart with the same key, and after a restart with another key the server must refuse to start or answer errors - never hand out a message. A start with ANOTHER key must fail (the undecryptable journal is reported as an error), must in no case hand out old data, and the following start with the right key must restore catalogue and data exactly. A second lens (wire lens, family crypto) sweeps the shared encryptor over every length 0..600 (lossless, nothing in clear, another key / truncations / bit flips are errors, never panics) and round-trips encrypted messages of boundary lengths over TCP and HTTP.',
